@@ -654,7 +654,7 @@ URLS = ['http://u1.example/service', 'http://u2.example/service']
 class World(object):
     """synthetic upstream: every layer name is a function world cell -> RGBA"""
 
-    def __init__(self, rng, names, kind=None, white=()):
+    def __init__(self, rng, names, kind=None, white=(), solid=None):
         self.img = {}
         for nm in names:
             k = kind or rng.choice(['binary', 'binary', 'opaque', 'any'])
@@ -667,6 +667,9 @@ class World(object):
                 for (x, y) in cells:
                     if x < 2:
                         cells[(x, y)] = (255, 255, 255, 255)
+            if solid and nm in solid:   # one opaque colour everywhere (content independent of the seed)
+                for c in cells:
+                    cells[c] = tuple(solid[nm])
             self.img[nm] = cells
         self.log = []
         self.tags = threading.local()      # set by the interposition on LayerRenderer._render_layer
@@ -1008,6 +1011,19 @@ def fixed_scenarios():
                         (['l0', 'l4'], True, None, (0, 0), None, {'limit': 'l4', 'bbox': [0, -1, 2, W + 1]}),
                         (['l0', 'g1'], False, None, (0, 0), None, {'limit': 'l2', 'bbox': [1, -1, 3, W + 1]}),
                         (['l0', 'g1'], True, None, (0, 0), None, None)]))
+    # authorisation: a limited layer directly below (and above) an unrestricted layer of the same upstream server,
+    # both combinable: the limit applies to the limited layer only, the neighbour is never swallowed by its request
+    limc = cfg({'s0': src(0, ['u0'], True), 's1': src(0, ['u1'], True), 's2': src(0, ['u2'], None)},
+               [{'name': 'l0', 'title': 'l0', 'sources': ['s0']}, {'name': 'l1', 'title': 'l1', 'sources': ['s1']},
+                {'name': 'l2', 'title': 'l2', 'sources': ['s2', 's1']}])
+    limc['solid'] = {'u0': (255, 0, 0, 255), 'u1': (0, 0, 255, 255), 'u2': (200, 200, 0, 255)}
+    lim0 = {'limit': 'l0', 'bbox': [0, -1, 2, W + 1]}
+    out.append((limc, [(['l0', 'l1'], False, (0, 255, 0), (0, 0), None, dict(lim0)),
+                       (['l0', 'l1'], True, None, (0, 0), None, dict(lim0)),
+                       (['l1', 'l0'], True, None, (0, 0), None, dict(lim0)),
+                       (['l0', 'l1'], True, None, (1, 0), None, {'limit': 'l1', 'bbox': [2, -1, 4, W + 1]}),
+                       (['l0', 'l2'], False, None, (0, 0), None, dict(lim0)),
+                       (['l0', 'l1'], True, None, (0, 0), None, None)]))
     # explicit SRS extent of the service, a clipped source, requests that reach beyond the extent
     clipc = cfg({'s0': src(0, ['u0'], False), 's1': src(1, ['u1'], True, cov={'bbox': [1, 1, 4, 4], 'clip': True})},
                 [{'name': 'l0', 'title': 'l0', 'sources': ['s0']}, {'name': 'l1', 'title': 'l1', 'sources': ['s1']}])
@@ -1149,7 +1165,8 @@ def stream_wms(ctx):
             if ci < len(fixed):
                 cfg, planned = fixed[ci]
                 avoid_known = False
-                world = World(rng, ['u%d' % i for i in range(8)], kind='binary', white=cfg.get('white', ()))
+                world = World(rng, ['u%d' % i for i in range(8)], kind='binary', white=cfg.get('white', ()),
+                              solid=cfg.get('solid'))
             else:
                 avoid_known = rng.random() < 0.75
                 cfg, planned = gen_config(rng, avoid_known), None
